@@ -81,7 +81,7 @@ Qed.
 Lemma navigate_url_target b d : wf_base b -> wf_ref d \/ wf_base d ->
   target (to_text b) (to_text d) = Some (canon (to_text (navigate_url b d))).
 Proof.
-  intros Wb Wd. pose proof (navigate_url_refines_rfc b d Wb Wd) as H. unfold spec_navigate in H.
+  intros Wb Wd. pose proof (navigate_url_refines_rfc_strict b d Wb Wd) as H. unfold spec_navigate_strict in H.
   destruct (target (to_text b) (to_text d)) as [t|]; [|discriminate].
   apply str_eqb_eq in H. congruence.
 Qed.
@@ -111,7 +111,15 @@ Proof.
   destruct (base_text_parse b W) as (segs & Hp & Hs & P). rewrite P. cbn [scheme authority path query fragment].
   rewrite (rds_abs_path segs Hs).
   pose proof (normalize_wf b W) as Wn. destruct (base_facts _ Wn) as (_ & _ & _ & _ & Tn & Un).
-  rewrite Tn, (canon_recompose _ Un), (normalize_uri b segs W Hp). apply str_eqb_refl.
+  rewrite Tn, (canon_recompose _ Un), (normalize_uri b segs W Hp).
+  assert (NC : forall p, norm_case (root_if_empty
+              (mkUri (Some (u_scheme b)) (Some (authority_text b)) p
+                     (opt (query_text (u_query b))) (opt (u_frag b)))) =
+            root_if_empty (mkUri (Some (u_scheme b)) (Some (authority_text b)) p
+                     (opt (query_text (u_query b))) (opt (u_frag b)))).
+  { intro p. destruct p; unfold root_if_empty, norm_case; cbn [scheme authority path query fragment option_map];
+      rewrite (wb_scheme_lower b W), (wb_auth_lower b W); reflexivity. }
+  rewrite NC. apply str_eqb_refl.
 Qed.
 
 (* ---- the observation of the model on URL objects, and the capstone ------------------------- *)
